@@ -498,6 +498,7 @@ func c09Line(work, line string, yml bool, tag string, lineNo int, r *rng, every,
 			var rrec radiaRec
 			radiaOK := true
 			var rGPHOT, rMAINT, radiaLAI, radiaDLE0 float64
+			var radiaMANT [5]float64
 			if grown {
 				gs, gr := pre, pre
 				gs.INTWICK, gr.INTWICK = g.INTWICK, g.INTWICK // the stage index after today's advance (DRYSWELL lookup)
@@ -510,6 +511,7 @@ func c09Line(work, line string, yml bool, tag string, lineNo int, r *rng, every,
 				a1, a2, a3, a4 := radiaShadow(&gs, &ls, int(reflect.ValueOf(lPre).FieldByName("temptyp").Int()), &rrec)
 				b1, b2, b3, b4 := hermes.VerifRadia(&gr, &lr)
 				rGPHOT, rMAINT = b3, b4
+				radiaMANT = lr.MANT
 				radiaOK = sameF(a1, b1) && sameF(a2, b2) && sameF(a3, b3) && sameF(a4, b4) && sameFs(ls.MANT[:], lr.MANT[:]) &&
 					sameF(gs.SUND[gs.TAG.Index], gr.SUND[gr.TAG.Index]) && sameF(gs.PARi, gr.PARi) && sameF(gs.RADSUM, gr.RADSUM) && sameF(gs.PARSUM, gr.PARSUM)
 				// and the real kernel agrees with the run: GPPdaily = GPHOT*12/30/10 (crop.go:218)
@@ -748,6 +750,7 @@ func c09Line(work, line string, yml bool, tag string, lineNo int, r *rng, every,
 				// head of radia() (RadiaModel.rd_light): inputs, oracle values by call site (0 where a site was not reached), recorded results
 				"h_temp": hx(temp), "h_mintmp": hx(pre.MINTMP), "h_maxamax": hx(pre.MAXAMAX), "h_co2": hx(pre.CO2KONZ), "h_meth": pre.CO2METH,
 				"h_temptyp": int(reflect.ValueOf(lPre).FieldByName("temptyp").Int()), "h_lai": hx(radiaLAI), "h_rdn": hx(rrec.RDN),
+				"m_worg": hxs(pre.WORG[:pre.NRKOM]), "m_mairt": hxs(pre.MAIRT[:pre.NRKOM]), "m_teff": hx(rrec.O["teff"]), "m_o_mant": hxs(radiaMANT[:pre.NRKOM]),
 				"h_dle0": hx(radiaDLE0), "h_o": radiaOracles(&rrec), "h_o_amax": hx(rrec.AMAX), "h_o_effe": hx(rrec.EFFE),
 				// supply terms (SupplyModel): raw inputs of MASS / DIFF for the first min(cnt, 10) layers, the class and inputs of maxup
 				"s_n": supN, "s_tp": hxs(pre.TP[:supN]), "s_c1": hxs(pre.C1[:supN]), "s_wg": hxs(pre.WG[0][:supN]), "s_ad": hxs(pre.AD[:supN]), "s_e": hxs(supE),
